@@ -36,6 +36,7 @@ type Clause struct {
 	HasOld bool
 	DefGoName string // lemma `requires def.v: v == e`: function computing e
 	CallType string
+	Exit bool // `loop k exit`: proved on every edge leaving the loop, then assumed (a cut point)
 	modParsed []*modSpec
 }
 
@@ -63,6 +64,7 @@ type Contract struct {
 	Ensures    []*Clause
 	Signals    []*Clause
 	Invariants map[int][]*Clause
+	LoopKeeps  map[int][]string // `loop k keeps H_T`: arrays of heap H_T that exist when loop k is entered keep their contents (an inferred invariant, proved on every back edge)
 	Modifies   []*Clause
 	NoPanic    bool
 	Inline     bool
@@ -266,11 +268,19 @@ func ParseContracts(path string) (*ContractFile, error) {
 				return nil, fmt.Errorf("%s:%d: loop ordinal: %v", path, pendingLine, err)
 			}
 			w2, r3 := splitWord(r2)
-			if w2 != "invariant" {
-				return nil, fmt.Errorf("%s:%d: expected `loop k invariant`", path, pendingLine)
+			if w2 == "keeps" {
+				if cur.LoopKeeps == nil {
+					cur.LoopKeeps = map[int][]string{}
+				}
+				cur.LoopKeeps[k] = append(cur.LoopKeeps[k], strings.Fields(r3)...)
+				continue
+			}
+			if w2 != "invariant" && w2 != "exit" {
+				return nil, fmt.Errorf("%s:%d: expected `loop k invariant` or `loop k exit`", path, pendingLine)
 			}
 			cl := mkClause("invariant", r3, pendingLine, &auto)
 			cl.Loop = k
+			cl.Exit = w2 == "exit"
 			cur.Invariants[k] = append(cur.Invariants[k], cl)
 		case "callsite":
 			// callsite <FuncTypeName> [label:] expr   (expr may mention callee, arg0..arg2 and locals)
